@@ -350,7 +350,10 @@ func vcRunC08(t *vcTrial, cfg vc08Cfg) {
 		secondOverlap := false
 		secondUsesWrite := r.chance(50)
 		thirdBad := ""
-		if cfg.Second {
+		// a second Flush/Write is only issued where the first cannot end by a write timeout meanwhile:
+		// flushing again after a write timeout is outside the contract (the poller may still be
+		// sending from the output buffer) and would corrupt the stream by the harness's own doing
+		if cfg.Second && cfg.TimeoutKind == "none" {
 			go func() {
 				defer close(secondDone)
 				// wait (bounded) until the first flusher is parked: only then "in progress" is certain
@@ -369,7 +372,7 @@ func vcRunC08(t *vcTrial, cfg vc08Cfg) {
 				}
 				// only where the first call cannot end by a write timeout meanwhile: after a write timeout
 				// the connection must not be flushed again (the poller may still own the output buffer)
-				if !errors.Is(secondErr, ErrConcurrentAccess) || atomic.LoadInt64(&firstRet) != 0 || cfg.TimeoutKind != "none" {
+				if !errors.Is(secondErr, ErrConcurrentAccess) || atomic.LoadInt64(&firstRet) != 0 {
 					return
 				}
 				// the first call is still in progress (it was parked and has not returned): a further call
